@@ -10,7 +10,24 @@ RULE = ("harness/src/bin/parsers.rs: valid serialisations of every layout (leaf;
         "distinct = distinct (parser, input vector); non-trivial = the input is not rejected by the length test alone "
         "(model reaches the field checks) or is accepted")
 ASSUMPTIONS = ["u64 inputs only (the Rust signature); GoldilocksField inner values are arbitrary u64 (non-canonical allowed)",
-               "usize is 64 bit"]
+               "usize is 64 bit",
+               "results are compared by class (Ok value / some error / panic): error messages and which of several "
+               "defects is reported first are not part of the property (the two private-batch parsers check in different orders)",
+               "to_canonical_u64 and try_4_felts_to_bytes (plonky2 / zk-circuits-common) are modelled as one conditional "
+               "subtraction of FIELD_ORDER resp. a length test; the differential run covers them with non-canonical inner values"]
+
+
+def judge(case, model_out):
+    names = {"2401": "leaf u64 parser", "2402": "leaf felt parser", "2403": "private-batch u64 parser",
+             "2404": "private-batch felt parser", "2405": "public-batch parser"}
+    what = names.get(case.fid, case.fid)
+    if case.out == "-1":
+        return ("violates", "%s PANICKED on this input (C24_total)" % what)
+    if case.out.startswith("1") and not model_out.startswith("1"):
+        return ("violates", "%s accepts an input outside the well-formed layouts (C24_*_accept_iff)" % what)
+    if model_out.startswith("1") and not case.out.startswith("1"):
+        return ("violates", "%s rejects a well-formed layout (C24_*_accept_iff / round trip)" % what)
+    return ("violates", "%s returns a different structure than the one laid out at the documented offsets" % what)
 
 
 def nontrivial(case, model_out):
